@@ -107,6 +107,9 @@ def check_fold(chk, rule, where, kf, what, *, kind, term=None, sense=None, init_
         if getattr(ext, "band", None) is not None:
             probs.append("the running optimum is replaced under `%s`, a comparison within a tolerance band rather than an exact comparison of keys: "
                          "such a relation is not transitive, so the selected set depends on the order of the transitions" % show(ext.band))
+        if getattr(ext, "truthy_seed", False):
+            probs.append("the running optimum counts as 'not set yet' whenever it is falsy (`not best`): a legitimate best value of 0 is thrown away at every step, "
+                         "so with all-zero successors only the last action is listed (and a zero minimum is never kept)")
         if sense and ext.sense != sense:
             probs.append("takes the %s where the %s is required" % (ext.sense, sense))
         t = ext.term if kind in ("ARGSET", "ARG") else kf.term
